@@ -47,6 +47,8 @@ PROBES = {
     "loopattr": "{% for x in it %}{{ loop.last }}{{ loop.length }}{% endfor %}", "default": "{{ obj.attr|default(fn(@)) }}",
     "mapattr": "{{ objs|map(attribute='attr')|join }}", "groupby": "{{ objs|groupby('attr')|length }}",
     "unique": "{{ it|unique|list|length }}", "batch": "{{ it|batch(2)|list|length }}", "dictsort": "{{ {'a': obj}|dictsort|length }}",
+    "mapattr_default": "{{ objs|map(attribute='attr', default='d')|join }}", "groupby_default": "{{ objs|groupby('attr', default='d')|length }}",
+    "selectattr": "{{ objs|selectattr('attr')|list|length }}", "sortattr": "{{ objs|sort(attribute='attr')|length }}", "sumattr": "{{ objs|sum(attribute='num') }}",
     "dot_item": "{{ obj.k }}", "dot_missing": "{{ obj.zz|default('d') }}", "sub_attr": "{{ obj['attr'] }}",
     "str_filter": "{{ obj|string|upper }}", "trim": "{{ obj|trim }}", "format": "{{ '%s'|format(obj) }}", "tilde": "{{ obj ~ fn(@) }}",
 }
@@ -150,6 +152,11 @@ def make_data(ev, is_async):
         def meth(self, x):
             ev.hit("meth")
             return "M%s" % x
+
+        @property
+        def num(self):
+            ev.hit("num")
+            return 2
 
     def fn(x=0):
         ev.hit("fn")
